@@ -58,6 +58,13 @@ package segread
 //@   ensures [ts16] implies(result1 == nil && len(rawRec) >= 10 && rawRec[1] == 2, len(result0) >= int(numRecs) && forall(k, 0, int(numRecs), result0[k] == uint64(le16(rawRec[10+2*k:])) + le64(rawRec[2:10])))
 //@   ensures [ts32] implies(result1 == nil && len(rawRec) >= 10 && rawRec[1] == 3, len(result0) >= int(numRecs) && forall(k, 0, int(numRecs), result0[k] == uint64(le32(rawRec[10+4*k:])) + le64(rawRec[2:10])))
 //@   ensures [ts64] implies(result1 == nil && len(rawRec) >= 10 && rawRec[1] == 4, len(result0) >= int(numRecs) && forall(k, 0, int(numRecs), result0[k] == le64(rawRec[10+8*k:]) + le64(rawRec[2:10])))
+// completeness (C01: every accepted and flushed event is found again): a block
+// whose bytes hold all numRecs offsets DECODES — the count of decodable records
+// is computed from the byte count without losing high bits (a block holds up to
+// 65534 records, i.e. up to 8 x 65534 offset bytes)
+//@   ensures [ts16-complete] implies(len(rawRec) >= 10 + 2*int(numRecs) && (len(rawRec) - 10) / 2 <= 65535 && rawRec[0] == sutils.TIMESTAMP_TOPDIFF_VARENC[0] && rawRec[1] == 2, result1 == nil)
+//@   ensures [ts32-complete] implies(len(rawRec) >= 10 + 4*int(numRecs) && (len(rawRec) - 10) / 4 <= 65535 && rawRec[0] == sutils.TIMESTAMP_TOPDIFF_VARENC[0] && rawRec[1] == 3, result1 == nil)
+//@   ensures [ts64-complete] implies(len(rawRec) >= 10 + 8*int(numRecs) && (len(rawRec) - 10) / 8 <= 65535 && rawRec[0] == sutils.TIMESTAMP_TOPDIFF_VARENC[0] && rawRec[1] == 4, result1 == nil)
 //@   safe
 //@   loop 1:
 //@     invariant oPtr == 10 + uint32(i) && i <= numValidRecs && numValidRecs <= numRecs && int(numRecs) <= len(bufToUse) && int(numValidRecs) <= len(rawRec) - 10 && len(rawRec) >= 10
@@ -169,4 +176,13 @@ package segread
 //@   assumecalleerequires
 //@   site call bs.UnmarshalBinary #1:
 //@     assert [the-bitset-library-only-sees-a-bit-set-whose-count-fits] len(arg1) >= 8 && pqBe64(arg1[0:8]) <= uint64(len(arg1) - 8) * 8
+//@ end
+
+// frame by exclusion, ASSUMED: reading the timestamp of one record (which may
+// load and decode the block's timestamp column into the reader's own buffers)
+// never writes a query's time range
+//@ func (*MultiColSegmentReader).GetTimeStampForRecord
+//@   assumed
+//@   preserves fieldsof(dtypeutils.TimeRange)
+//@   note ASSUMED frame: the time reader writes its own buffers and block bookkeeping only
 //@ end
